@@ -92,14 +92,24 @@ Definition focus_loop (P : con -> parser) (sel : name) :=
         end
     end.
 
-Definition count_loop (P : parser) :=
-  fix go (n : nat) (i : Z) (cx : ctx) (p : path) (s : istream) : res (list val * istream) :=
-    match n with
-    | O => Ok ([], s)
-    | S n' =>
-        let* (v, s1) := P (ctx_set_index cx i) p s in
-        let* (vs, s2) := go n' (i + 1)%Z cx p s1 in Ok (v :: vs, s2)
-    end.
+(* n-fold iteration with early exit, by recursion on the binary representation: a count of 2^40
+   costs 40 steps once the element parser has failed, as `for i in range(count)` does *)
+Fixpoint iter_pos {A} (f : A -> res A) (n : positive) (a : A) : res A :=
+  match n with
+  | xH => f a
+  | xO n' => let* a1 := iter_pos f n' a in iter_pos f n' a1
+  | xI n' => let* a1 := f a in let* a2 := iter_pos f n' a1 in iter_pos f n' a2
+  end.
+Definition iter_N {A} (f : A -> res A) (n : N) (a : A) : res A :=
+  match n with N0 => Ok a | Npos p => iter_pos f p a end.
+
+Definition count_step (P : parser) (cx : ctx) (p : path) (st : Z * list val * istream)
+  : res (Z * list val * istream) :=
+  let '(i, acc, s) := st in
+  let* (v, s1) := P (ctx_set_index cx i) p s in Ok ((i + 1)%Z, v :: acc, s1).
+
+Definition count_loop (P : parser) (n : N) (cx : ctx) (p : path) (s : istream) : res (list val * istream) :=
+  let* (_, acc, s') := iter_N (count_step P cx p) n (0%Z, [], s) in Ok (rev acc, s').
 
 (* an exception GreedyRange / Select swallow: everything but ExplicitError (and the model's meta
    outcomes, which are not behaviours of the code) *)
@@ -419,7 +429,7 @@ Fixpoint parse (c : con) (cx : ctx) (p : path) (s : istream) {struct c} : res (v
   | CArray count c' =>
       let* n := eval_int cx count in
       if (n <? 0)%Z then raise ERange p else
-      let* (vs, s') := count_loop (parse c') (Z.to_nat n) 0%Z cx p s in Ok (VList vs, s')
+      let* (vs, s') := count_loop (parse c') (Z.to_N n) cx p s in Ok (VList vs, s')
   | CGreedyRange c' =>
       let* (vs, s') := greedy_loop (parse c') (length (idata s) + 64) 0%Z cx p s in Ok (VList vs, s')
   | CRepeatUntil pred c' =>
@@ -467,7 +477,7 @@ Fixpoint parse (c : con) (cx : ctx) (p : path) (s : istream) {struct c} : res (v
       let* (_, s2) := iseek s1 (itell s) 0 p in
       let len := (endpos + o - itell s)%Z in
       let* (d, s3) := iread s2 len p in
-      let* (v, _) := parse c' cx p (substream d (ibase s + ipos s)) in Ok (v, s3)
+      let* (v, _) := parse c' cx p (substream d (iabs s)) in Ok (v, s3)
   | CRawCopy c' =>
       let* (v, s1) := parse c' cx p s in
       let o1 := itell s in let o2 := itell s1 in
@@ -483,25 +493,25 @@ Fixpoint parse (c : con) (cx : ctx) (p : path) (s : istream) {struct c} : res (v
       let* n := vint_of lv in
       let* n := (if incl then let* k := sizeof lc cx p in Ok (n - k)%Z else Ok n) in
       let* (d, s2) := iread s1 n p in
-      let* (v, _) := parse c' cx p (substream d (ibase s1 + ipos s1)) in Ok (v, s2)
+      let* (v, _) := parse c' cx p (substream d (iabs s1)) in Ok (v, s2)
   | CFixedSized len c' =>
       let* n := eval_int cx len in
       if (n <? 0)%Z then raise EPadding p else
       let* (d, s1) := iread s n p in
-      let* (v, _) := parse c' cx p (substream d (ibase s + ipos s)) in Ok (v, s1)
+      let* (v, _) := parse c' cx p (substream d (iabs s)) in Ok (v, s1)
   | CNullTerminated c' term incl consume req =>
       match term with
       | [] => raise EPadding p
       | _ =>
           let* (d, s1) := nullterm_scan (S (length (iavail s))) term incl consume req [] s p in
-          let* (v, _) := parse c' cx p (substream d (ibase s + ipos s)) in Ok (v, s1)
+          let* (v, _) := parse c' cx p (substream d (iabs s)) in Ok (v, s1)
       end
   | CNullStripped c' pad =>
       match pad with
       | [] => raise EPadding p
       | _ =>
           let '(d, s1) := iread_all s in
-          let* (v, _) := parse c' cx p (substream (null_strip pad d) (ibase s + ipos s)) in Ok (v, s1)
+          let* (v, _) := parse c' cx p (substream (null_strip pad d) (iabs s)) in Ok (v, s1)
       end
   | CTransformed c' df da _ _ =>
       let* (d, s1) := match da with
@@ -517,11 +527,11 @@ Fixpoint parse (c : con) (cx : ctx) (p : path) (s : istream) {struct c} : res (v
       match decode_units df units with
       | None => unsupported
       | Some dec =>
-          let* (v, si) := parse c' cx p (mkI (concat dec) 0 0 false) in
-          let k := Nat.min (ipos si) (length (concat dec)) in
+          let* (v, si) := parse c' cx p (mkI (concat dec) 0%N 0%N false) in
+          let k := N.to_nat (N.min (ipos si) (nlen (concat dec))) in
           let '(j, tot) := units_needed k dec in
           if Nat.eqb tot k then
-            Ok (v, iset_pos s (ipos s + length (concat (firstn j units))))
+            Ok (v, iset_pos s (ipos s + nlen (concat (firstn j units)))%N)
           else Err EValue None        (* close(): unread bytes remain *)
       end
   | CProcessXor key c' =>
@@ -530,13 +540,14 @@ Fixpoint parse (c : con) (cx : ctx) (p : path) (s : istream) {struct c} : res (v
       | VInt _ | VBytes _ | VBool _ =>
           let '(d, s1) := iread_all s in
           let* d' := xor_data k d p in
-          let* (v, _) := parse c' cx p (substream d' (ibase s + ipos s)) in Ok (v, s1)
+          let* (v, _) := parse c' cx p (substream d' (iabs s)) in Ok (v, s1)
       | _ => raise EString p
       end
   | CProcessRotl amount group c' =>
       let* a := eval_int cx amount in
       let* g := eval_int cx group in
       if (g <? 1)%Z then raise ERotation p else
+      if (alloc_bound <? g)%Z then unsupported else
       let am := Z.to_N (a mod (g * 8)) in
       let '(d, s1) := iread_all s in
       match rotate_left am (Z.to_nat g) d with
@@ -569,5 +580,5 @@ Definition parse_bytes (c : con) (kw : list (name * val)) (data : bytes) : res v
   let* (v, _) := parse c (top_ctx kw MParse) [] (istream_of data) in Ok v.
 
 (* d.parse_stream(io.BytesIO(data) seeked to start, **kw): value and final tell() *)
-Definition parse_at (c : con) (kw : list (name * val)) (data : bytes) (start : nat) : res (val * Z) :=
-  let* (v, s) := parse c (top_ctx kw MParse) [] (mkI data start 0 true) in Ok (v, itell s).
+Definition parse_at (c : con) (kw : list (name * val)) (data : bytes) (start : N) : res (val * Z) :=
+  let* (v, s) := parse c (top_ctx kw MParse) [] (mkI data start 0%N true) in Ok (v, itell s).
